@@ -546,6 +546,16 @@ func (l *commitLog) waitForHW(r contextReader, hw int64) <-chan bool {
 	return wait
 }
 
+// isReadonlyEnd indicates if a committed reader which has read up to the given
+// HW is at the end of a readonly log, i.e. the log is readonly, the HW has not
+// changed and is caught up to the LEO. A readonly signal sent to a HW waiter
+// tells what held when it was sent, not when the reader gets to act on it.
+func (l *commitLog) isReadonlyEnd(hw int64) bool {
+	l.mu.RLock()
+	defer l.mu.RUnlock()
+	return l.hw == hw && l.hw >= l.NewestOffset() && l.IsReadonly()
+}
+
 func (l *commitLog) removeHWWaiter(r contextReader) {
 	l.mu.Lock()
 	delete(l.hwWaiters, r)
